@@ -126,3 +126,5 @@ def run(repo: Repo, rep: Report, tier: str) -> None:
             diff = {k: (got[k], want[k]) for k in want if got[k] != want[k]}
             rep.violation("R02.4", ci.key, inst, f"format dialect declares something other than its documented native types / options: {diff}")
     rep.floor("R02.4", 3)
+    from ..core import regget
+    regget.report(repo, rep, "R02.6", {"first-match-in-order", "raise-otherwise", "real-type"})
